@@ -317,6 +317,14 @@ Lemma k_round_model qs : k_isbx_round qs = int_round qs /\ k_ipm_round qs = int_
 Lemma k_soln_fields_ok : forallb soln_row_ok k_soln_fields = true /\ soln_table_complete k_soln_fields = true.
 Proof. split; vm_compute; reflexivity. Qed.
 
+(** ** the source of the random draws: every draw site of pymoo_addon names the generator handed to the operator; each drawing function
+    fixes it (falling back to global_prng only for None) before its first draw; the modelled functions draw in the order the
+    correspondence's request log expects; finite tables regenerated from the source, checked by computation *)
+Lemma k_draw_sites_ok :
+  forallb draw_row_ok k_draw_sites = true /\ forallb draw_fallback_ok k_draw_fallbacks = true /\
+  forallb (draw_has_fallback k_draw_fallbacks) k_draw_sites = true /\ draw_modelled_ok k_draw_sites = true.
+Proof. repeat split; vm_compute; reflexivity. Qed.
+
 (** ** the property theorems restated about the generated definitions *)
 Lemma sd_machine_result ev fuel cand ix k s' w' g' :
   NoDup cand -> NoDup ix -> (forall i, In i ix -> (i < length cand)%nat) -> length ix = k ->
